@@ -35,23 +35,35 @@ THEOREMS = [
 LEAN_MODULE_EXTRA = ['CC.Properties.C14Polar']
 THEOREMS += ['CC.C14_denotes_polar', 'CC.C14_denotes_time', 'CC.C14_denotes_power', 'CC.C14_denotes_real_zero',
              'CC.C14_denotes_complex_zero_part']
+# round 5b (CC/Properties/C14Readers.lean over CC/Properties/C18Readers.lean): Cartesian and time-function labels read by
+# the verified readers; numeric agreement Cartesian vs polar
+LEAN_MODULE_EXTRA += ['CC.Properties.C14Readers']
+THEOREMS += ['CC.C14_denotes_cartesian', 'CC.C14_denotes_sinusoid', 'CC.C14_agree_numeric']
 OPEN_STATEMENTS = [
     'C14_denotes at the level of the text is proved for the real voltage / current / potential annotations (CC.C14_denotes_real '
     'for a non-zero value, CC.C14_denotes_real_zero for exactly 0) and for the DC power annotation (CC.C14_denotes_power: text of '
     '|P| read back by the real path + arrow down iff P > 0) — below 1e16 outside the rounds-up-to-one region (open finding)',
     'Cartesian complex annotations: CC.C14_denotes_complex_shown_parts states each branch with its is_zero condition, the signs '
     'and the accuracy of the part texts; WHICH parts appear is false at full strength (open finding: parts the prefixes can '
-    'express are dropped).  Phasors with an EXACTLY zero part are proved (CC.C14_denotes_complex_zero_part); '
-    'C14_agree_real_cartesian covers re >= 0 only',
+    'express are dropped).  Phasors with an EXACTLY zero part are proved (CC.C14_denotes_complex_zero_part).  Round 5b: the whole '
+    'label is read by the Spec reader parseCartesian (CC.C14_denotes_cartesian: exactly the parts named, each RealOK w.r.t. the '
+    'SIGNED Re / Im of the signed solution value, both parts in the domain); C14_agree_real_cartesian covers re >= 0 only',
     'polar and time-function annotations: CC.C14_denotes_polar (the label read by parsePolar: magnitude RealOK w.r.t. d.absV, '
     'angle within 0.5e-4 rad / 0.5e-2 deg of d.angle, shown iff above the cut-off) and CC.C14_denotes_time (w = 0: the real '
     'annotation of Re of the signed value, read back; w != 0: amplitude·sin/cos(freq·t±phase) with the amplitude read back '
     'w.r.t. d.absV) are statements about the run-time parameters d.absV, d.angle, d.phase, d.phaseDeg, d.wHz (abs / angle / '
     'phase of the signed value, computed by libm): that these ARE the modulus and argument of the signed solution value — and '
     'hence that RMS (polar) and peak (time) texts denote the quantity — is covered by the correspondence and the oracle only; '
-    'the whole time-function string has no verified reader (no reader in the Spec), its phase / frequency numbers read back by '
-    'C18_time_parts_read_back; the time-function POWER label is not p(t) (open finding)',
-    'C14_agree for the numeric read-back of Cartesian vs polar (|q|, arg q are runtime parameters): oracle only',
+    'round 5b: the whole time-function label is read by parseSinusoid (CC.C14_denotes_sinusoid: amplitude / frequency / phase '
+    'RealOK w.r.t. d.absV, d.w or d.wHz, shownPhase d.phase d.phaseDeg, the flags; w = 0: the constant) and what the three numbers '
+    'denote relative to Re(X e^{jwt}) is bounded by C18_sinusoid_denotes with the libm deviation as an explicit term (not yet '
+    'instantiated with the parsed numbers in one corollary); the time-function POWER label is not p(t) (open finding)',
+    'C14_agree numeric: CC.C14_agree_numeric proves, for all reals, |(a\'+jb\') - M\'e^{j th\'}| <= |a\'-re| + |b\'-im| + |M\'-M| + '
+    '|M||th\'-th| + |(re+j im) - M e^{j th}| — the Cartesian and polar readings agree within the sum of their display tolerances '
+    'PLUS the distance of the run-time parameters d.absV, d.angle from the modulus / argument of the signed value (zero when '
+    'exact; its size for the libm values is oracle only).  Not written: the corollary that plugs in the tolerances of '
+    'C14_denotes_cartesian / C14_denotes_polar for one (q, d) (needs finiteness of the texts and Q -> R casts; degree mode needs '
+    'the factor pi/180); polar vs time function compare RMS with peak magnitudes (different d.absV): shape only (C14_agree_magnitude)',
     'pins (restate generated definitions): C14_sign, C14_factories, C14_ctors',
 ]
 ASSUMPTIONS = c18.ASSUMPTIONS + [
